@@ -28,14 +28,16 @@ impl<T> AtomicOption<T> {
     #[inline]
     #[cfg_attr(may_verif, track_caller)]
     pub fn store(&self, t: T) {
+        // under the hooks the replaced value is dropped after the record of the
+        // store is written, its destructor may run into schedule points itself
         #[cfg(may_verif)]
-        return crate::verif::step(
+        return drop(crate::verif::step(
             std::panic::Location::caller(),
             "opt.store",
             self as *const _ as usize,
             |_| 1,
-            || self.inner.store(Some(t)),
-        );
+            || self.inner.swap(Some(t)),
+        ));
         #[cfg(not(may_verif))]
         self.inner.store(Some(t));
     }
